@@ -74,6 +74,17 @@ def main():
                     q_["v"] = "out"
             vs = vars_of(phi)
             headless = True
+        objin = False
+        if not headless and rng.random() < 0.1 and "x" in vs:
+            # the input x is the field x of an object signal o (o.x >= 1); half of these also write the output to a field of the
+            # same object (o.value = ...), a quarter have an earlier assertion that does (o.value = u >= 0; out = ... o.x ...)
+            import copy
+            phi = copy.deepcopy(phi)
+            for q_ in subformulas(phi):
+                if q_["op"] == "var" and q_["v"] == "x":
+                    q_["v"] = "o.x"
+            vs = vars_of(phi)
+            objin = True
         declared, order, extra = shapes(rng, vs)
         if kind.startswith("dt"):
             N = rng.choice([1, 1, 2, 3, 5])
@@ -98,8 +109,10 @@ def main():
                     if extra:
                         e["extra"] = {"zz": 1.0}; e["extra_at"] = rng.choice([0, 0, 1, 9])
                     evs.append(e)
-            if not headless and rng.random() < 0.06:
+            if not headless and rng.random() < (0.5 if objin else 0.06):
                 o["out_field"] = True
+            elif objin and len(declared) > 1 and rng.random() < 0.5:
+                o["subs"] = ["o.value = (%s >= 0);" % [v_ for v_ in declared if v_ != "o.x"][0]]
             dt.append(case([o], evs, kind=kind, skip=["evaluate.viol", "update.viol"]))
         else:
             end = rng.choice([1, 2, 4, 6])
@@ -123,7 +136,9 @@ def main():
                 if extra:
                     e["extra"] = {"zz": [[0, 1.0], [end, 2.0]]}; e["extra_at"] = rng.choice([0, 0, 1, 9])
                 evs.append(e)
-            if not headless and rng.random() < 0.06:
+            if objin and len(declared) > 1 and rng.random() < 0.25:
+                o["subs"] = ["o.value = (%s >= 0);" % [v_ for v_ in declared if v_ != "o.x"][0]]
+            elif not headless and rng.random() < (0.6 if objin else 0.06):
                 o["out_field"] = True
                 if kind != "ct_off" and len(vs) >= 1:
                     # two updates (the signals cut in two) - the output object must survive the first one
